@@ -7,7 +7,7 @@ os.environ["VERIF_EVIDENCE_DIR"] = "/tmp/verif_seed_evidence"
 PROP = {"D1-revert": "C17", "D12-revert": "C10", "D17-revert": "C14", "D2-revert": "C14", "D3evict-revert": "C10",
         "D3hang-revert": "C10", "D4-revert": "C11", "D5-revert": "C13", "D6-revert": "C15", "D7-revert": "C18",
         "D8a-revert": "C19", "D9-revert": "C07", "D19-revert": "C20", "D10-revert": "C20", "D20-revert": "C20",
-        "D21-revert": "C20", "D22-revert": "C20"}
+        "D21-revert": "C20", "D22-revert": "C20", "D23-revert": "C12"}
 tier = sys.argv[1] if len(sys.argv) > 1 else "quick"
 only = sys.argv[2:]
 res = {}
